@@ -103,7 +103,7 @@ Monitors(r, b) ==
                   \cup (IF PosOK(r.bytes, r.gres.o, r.gres.l, r.gres.c) THEN {}
                         ELSE {<<"error_linecol", r.gres.o, r.gres.l, r.gres.c>>})
                   \cup (IF r.gres.nexp >= 1 THEN {} ELSE {<<"no_expected_tokens">>})
-      c13 == IF gok THEN UNION {C13Tree(r.bytes, trees[i]) : i \in 1 .. Len(trees)} ELSE {}
+      c13 == IF gok THEN UNION {C13TreeWs(r.bytes, trees[i], T.augl < 0) : i \in 1 .. Len(trees)} ELSE {}
       c15 == IF r.gres.k \in {"ok", "err"} THEN {} ELSE {<<r.gres.k, r.gres.msg>>}
       cyc == Cyc[g2]
       \* binding of the OPERATIONAL module: GLRRuntime run on the same tokens over the
